@@ -15,6 +15,7 @@ def main():
     ap.add_argument("--replay", default=None)
     a = ap.parse_args()
     prop = a.prop.upper()
+    os.environ["VERIF_TIER_ACTIVE"] = a.tier
     try:
         mod = importlib.import_module(f"harness.{prop.lower()}")
     except ImportError:
